@@ -235,7 +235,7 @@ func c17Check(e *env, batch []c17Pending) {
 	if len(batch) == 0 {
 		return
 	}
-	reqs := make([]string, 3*len(batch))
+	reqs := make([]string, 4*len(batch))
 	printed := make([]string, len(batch))
 	ids := newIDTable()
 	for i := range batch {
@@ -264,11 +264,13 @@ func c17Check(e *env, batch []c17Pending) {
 		}
 		reqs[len(batch)+i] = "ping"
 		reqs[2*len(batch)+i] = "ping"
+		reqs[3*len(batch)+i] = "ping"
 		if n != nil {
 			b.sexp = nodeSexp(n, ids)
 			printed[i] = n.String()
 			reqs[len(batch)+i] = "print_node " + b.sexp
 			reqs[2*len(batch)+i] = "tokens_of " + b.sexp
+			reqs[3*len(batch)+i] = "c17_kw_clause " + b.sexp
 		}
 	}
 	resp := e.m.Batch(reqs)
@@ -302,6 +304,18 @@ func c17Check(e *env, batch []c17Pending) {
 				Case: b.c, Expected: map[string]string{"class": b.class, "tree": b.sexp}, Observed: map[string]string{"class": mclass, "tree": msexp, "raw": strings.Join(r, " ")}}, "")
 		} else {
 			e.res.Histogram["parser-correspondence:agree:"+b.class]++
+		}
+		// ---- the keyword clause of lex_ok (Spec/LexKeyword.v c17_kw_clause, a decidable predicate; C17_keyword_clause:
+		//      lex_ok implies it): evaluated on every tree the real parser returns.  The scanner reads a keyword as
+		//      its own item type, so no parsed tree has a keyword as a function name, the head of a global or a
+		//      directive name; a tree on which the clause fails is outside the text-level theorems and is counted ----
+		if b.class == "ok" {
+			kw := resp[3*len(batch)+i]
+			if len(kw) == 1 && kw[0] == "#1" {
+				e.res.Histogram["lex_ok-keyword-clause:holds"]++
+			} else {
+				e.res.Histogram["lex_ok-keyword-clause:FAILS (tree outside the text-level theorems): "+strings.Join(kw, " ")]++
+			}
 		}
 		// ---- printer correspondence ----
 		if b.class == "ok" {
